@@ -27,7 +27,9 @@ as probed, not read from the AST):
   * default_params_reported : FloatMultiplyOperationWithDefault with context factor=10 -> SER reports
     factor / "context" (and with an empty context factor / "default");
   * metadata_json_safe : a traced sweep over YAML dates neither raises nor drops pipeline_spec_canonical;
-  * pipeline_id_stable : two traced runs of one Pipeline object with a sweep node carry the same pipeline_id.
+  * pipeline_id_stable : two traced runs of one Pipeline object with a sweep node carry the same pipeline_id;
+  * opaque_raises_before_start : the traced sweep over YAML dates raises before pipeline_start is emitted (the ids
+    hashed before the start record include the sweep metadata).
 """
 import ast
 import glob
@@ -61,7 +63,8 @@ Definition driver_drops_spec := false.
 Definition default_params_reported := false.
 Definition metadata_json_safe := false.
 Definition pipeline_id_stable := false.
-Definition gen_facts : facts := mkFacts false false false false false false false false false false.
+Definition opaque_raises_before_start := false.
+Definition gen_facts : facts := mkFacts false false false false false false false false false false false.
 Definition gen_layout : layout := mkLayout [] [] [] [] [].
 Definition gen_schema : schema := mkSchema [] [] [] [] [].
 Definition translation_failed := true.
@@ -300,6 +303,8 @@ def probes():
     r = tl.run_traced([{"k": "datesweep", "n": 2, "value": 1}], None, {})
     starts = [x for x in r.records if x.get("record_type") == "pipeline_start"]
     res["metadata_json_safe"] = bool(r.exc is None and starts and "pipeline_spec_canonical" in starts[0])
+    # the traced run raises while the ids are hashed, before pipeline_start is emitted
+    res["opaque_raises_before_start"] = bool(r.exc is not None and not starts)
     sw = [{"k": "sweep", "elem": "src", "vars": [("t", ("seq", [1, 2]))], "exprs": [("value", ("var", "t"))],
            "mode": "combinatorial", "broadcast": False}]
     a = tl.run_traced(sw, None, {}, keep_dir=True)
@@ -323,7 +328,7 @@ def translate():
     order = ["instantiate_inside_try", "node_handler_catches_base", "outer_handler_catches_base", "handlers_reraise",
              "ser_in_both_arms", "end_in_both_arms", "start_before_try", "flush_close_in_finally", "iso_now_utc",
              "driver_now_utc", "timestamps_use_utc", "driver_drops_spec", "default_params_reported", "metadata_json_safe",
-             "pipeline_id_stable"]
+             "pipeline_id_stable", "opaque_raises_before_start"]
     lines = ["(* GENERATED by harness/translate/orchestrator.py from %s, %s, %s and trace/schema/*.json -- do not edit." % (ORCH, JSONL, MODEL),
              "   default_params_reported, metadata_json_safe, pipeline_id_stable are PROBED facts (minimal failing inputs run on the implementation). *)",
              "From Coq Require Import List String Bool. Import ListNotations.",
@@ -332,7 +337,7 @@ def translate():
     for k in order:
         lines.append("Definition %s : bool := %s." % (k, cq_bool(facts[k])))
     lines.append("Definition gen_facts : facts := mkFacts instantiate_inside_try node_handler_catches_base outer_handler_catches_base "
-                 "end_in_both_arms flush_close_in_finally iso_now_utc driver_now_utc default_params_reported metadata_json_safe pipeline_id_stable.")
+                 "end_in_both_arms flush_close_in_finally iso_now_utc driver_now_utc default_params_reported metadata_json_safe pipeline_id_stable opaque_raises_before_start.")
     lines.append("Definition gen_layout : layout := mkLayout %s %s %s %s %s." % (
         cq_list(layout["start"], cq_str), cq_list(["pipeline_spec_canonical"] if facts["driver_drops_spec"] else [], cq_str),
         cq_list(layout["end"], cq_str), cq_list(layout["ser"], cq_str), cq_list(layout["ser_opt"], cq_str)))
